@@ -34,8 +34,8 @@ ASSUMPTIONS = ["the stub reproduces PROPKA 3.5.1's row schema (res_num, ins_code
                "for the titrated state at that chain position",
                "a warning for a kept default = a record at WARNING or above emitted during the titration stage that "
                "mentions the residue number"]
-MIN = {"quick": {"groups_checked": 1500, "sweeps": 20, "propka_sweeps": 2, "propka_rows_judged": 100, "neutral_terminus_cells": 14, "icode_cells": 20, "cells_with_ffout": 80, "api_terminal_cells": 100, "near_cysteine_pairs": 15},
-       "thorough": {"groups_checked": 40000, "sweeps": 600, "propka_sweeps": 30, "propka_rows_judged": 3000, "neutral_terminus_cells": 800, "icode_cells": 1200, "cells_with_ffout": 6000, "api_terminal_cells": 4000, "near_cysteine_pairs": 600}}
+MIN = {"quick": {"groups_checked": 1500, "sweeps": 20, "propka_sweeps": 2, "propka_rows_judged": 100, "neutral_terminus_cells": 14, "icode_cells": 20, "cells_with_ffout": 80, "api_terminal_cells": 100, "near_cysteine_pairs": 15, "hiddenchain_rows_judged": 20},
+       "thorough": {"groups_checked": 40000, "sweeps": 600, "propka_sweeps": 30, "propka_rows_judged": 3000, "neutral_terminus_cells": 800, "icode_cells": 1200, "cells_with_ffout": 6000, "api_terminal_cells": 4000, "near_cysteine_pairs": 600, "hiddenchain_rows_judged": 800}}
 CELLS_REQUIRED = 276
 from ..mon.pkastub import GROUPS, STUB, TITR, install, label, make_table  # noqa: E402,F401
 
@@ -76,6 +76,10 @@ def cases(tier, seed):
         for ff in common.FFS:
             for pa in "NIC":
                 out.append({"kind": "nearcys", "ff": ff, "pos": pa, "seed": seed * 1031 + rep * 1000 + len(out)})
+    # two peptides under one chain id with no TER between them (the first ends in OXT): the tool splits the chain itself,
+    # and the pKa source (real PROPKA here) sees the structure after that split
+    for i in range(6 if tier == "quick" else 240):
+        out.append({"kind": "hiddenchain", "ff": common.FFS[i % 6], "seed": seed * 1033 + i})
     ns = 24 if tier == "quick" else 2500
     for i in range(ns):
         out.append({"kind": "sweep", "ff": common.FFS[i % 6], "seed": seed * 7001 + i})
@@ -354,6 +358,55 @@ def run_nearcys(spec, res):
     res.sample = {"kind": "nearcys", "ff": spec["ff"], "pH": ph, "sg_sg": round(dist, 3), "sides": sides}
 
 
+def run_hiddenchain(spec, res):
+    """Chain ends hidden inside one chain id x the pKa route (seed C06k: the split-off segment's residues and atoms ended
+    up under different chain ids, so no pKa row found its residue)."""
+    import numpy as np
+    install()
+    rng = random.Random(spec["seed"])
+    pool = ["ASP", "GLU", "HIS", "LYS", "TYR", "CYS", "ARG", "ALA", "SER"]
+    pa = S.peptide([rng.choice(pool) for _ in range(rng.randint(4, 6))], rng, hydrogens="none")
+    pb = S.peptide([rng.choice(pool) for _ in range(rng.randint(4, 6))], rng, hydrogens="none")
+    S.transform(pb, np.eye(3), np.array([0.0, 0.0, 45.0]))
+    cid = rng.choice(["A", "A", "X", ""])
+    items, truth = S.assemble([{"id": cid, "start": 1, "residues": pa}, {"id": cid, "start": 101, "residues": pb}])
+    items = [it for k, it in enumerate(items) if not (it == "TER" and k < len(items) - 2)]   # no TER between the two
+    text = pdbfmt.to_text(items)
+    judged = 0
+    for ph in (rng.choice([0.5, 1.0, 2.0]), rng.choice([12.0, 13.0, 13.5]), round(rng.uniform(3, 11), 1)):
+        STUB["table"] = None
+        STUB["real_rows"] = None
+        STUB["titration_log"] = []
+        r = pipeline.run(text, [f"--ff={spec['ff']}", "--titration-state-method=propka", f"--with-ph={ph}"] +
+                         rng.choice([[], ["--keep-chain"], ["--noopt"]]), workname="c06")
+        if not r.ok:
+            res.count("hiddenchain_runs_failed")
+            res.note(f"hidden-chain run failed: {type(r.exc).__name__} {str(r.exc)[:80]}")
+            continue
+        res.count("hiddenchain_runs")
+        groups = []
+        for row in STUB.get("real_rows") or []:
+            lab = row["group_label"]
+            if lab.startswith(("N+", "C-")) or row["res_name"] not in GROUPS:
+                continue
+            ks = [k for k, t in enumerate(truth) if t["resi"] == row["res_num"] and t["resn"] == row["res_name"]]
+            if len(ks) != 1 or (row["res_name"] == "CYS" and row["pKa"] >= 99):
+                continue
+            groups.append({"group": row["res_name"], "k": ks[0], "side": "below" if ph < row["pKa"] else "above",
+                           "rel": "propka", "pka": row["pKa"]})
+        before = len(res.violations)
+        judge_groups(res, spec, truth, items, groups, r, ph, spec["ff"])
+        judged += len(groups)
+        for v in res.violations[before:]:
+            second = v["witness"].get("residue", "").split()[-1:] and int(v["witness"]["residue"].split()[-1]) > 100
+            v["witness"]["original_mech"] = v["mech"]
+            v["witness"]["segment"] = "split-off" if second else "first"
+            v["mech"] = "titration/chain-end-hidden-inside-one-chain-id/" + v["mech"].split("/")[1]
+    res.count("hiddenchain_rows_judged", judged)
+    res.nt("hiddenchain", spec["ff"], cid)
+    res.sample = {"kind": "hiddenchain", "ff": spec["ff"], "chain_id": cid, "rows_judged": judged}
+
+
 def total_and_residues(r):
     pq = pipeline.parse_pqr(r.pqr_text)
     return sum(a["q"] for a in pq), {(a["resn"][-3:], a["resi"]) for a in pq}, pq
@@ -463,6 +516,8 @@ def run_case(spec):
         run_icodecell(spec, res)
     elif spec["kind"] == "nearcys":
         run_nearcys(spec, res)
+    elif spec["kind"] == "hiddenchain":
+        run_hiddenchain(spec, res)
     elif spec["kind"] == "sweep":
         run_sweep(spec, res)
     else:
